@@ -150,7 +150,7 @@ def stepWith (fix : Bool) (s : St) (ts : List String) : St × String :=
     | none => (s, "bad-op")
   | ["rbf", id] =>
     match (parseNat? id).bind (findTx s) with
-    | some tx => (s, showRbf (checkRbf s.pool tx))
+    | some tx => (s, if enableRbf s.pool.cfg then showRbf (checkRbf s.pool tx) else "rbf-disabled")
     | none => (s, "bad-op")
   | ["submit", id, st, t] =>
     match (parseNat? id).bind (findTx s), parseStatus? st, parseNat? t with
